@@ -119,6 +119,7 @@ class IntEnc:
         self.defs = {}        # atom -> ("split"|"wrap"|..., data) for concrete evaluation
         self.zero_forms = []  # forms proven/known to be zero (Lin)
         self.fb = {}          # form key -> (lo, hi) bounds implied by emitted constraints
+        self.eqs = []         # defining equations: (Lin zero-form, atom-count stamp)
         self._n = 0
 
     # -------------------------------------------------------- atoms
@@ -164,6 +165,9 @@ class IntEnc:
         return lo >= 0 and hi <= 1
 
     # -------------------------------------------------------- arithmetic helpers
+    def _add_eq(self, form):
+        self.eqs.append((form, len(self.order)))
+
     def wrap(self, f, lo, hi, w, tag="q"):
         """value of f modulo 2^w given f in [lo,hi]"""
         M = 1 << w
@@ -181,12 +185,14 @@ class IntEnc:
             return s[0], s[4], s[5]
         ql, qh = lo >> w, hi >> w      # floor division, fine for negatives
         q = self.new_atom(tag, 0, qh - ql, ("quot", f, w, ql))
-        r = f - Lin(0, {q: M}) - ql * M
-        self.cons.append("(<= 0 %s %d)" % (r.smt(), M - 1))
-        self.fb[r.key()] = (0, M - 1)
         rl, rh = (0, M - 1) if qh > ql else (lo - ql * M, hi - ql * M)
-        self.splits[key] = (r, Lin(ql, {q: 1}), ql, qh, max(rl, 0), min(rh, M - 1))
-        return r, max(rl, 0), min(rh, M - 1)
+        rl, rh = max(rl, 0), min(rh, M - 1)
+        r = self.new_atom("r", rl, rh, ("rem", f, w, q, ql))
+        # r = f - 2^w (q + ql)
+        self._add_eq(Lin(ql * M, {r: 1, q: M}) - f)
+        R = Lin(0, {r: 1})
+        self.splits[key] = (R, Lin(ql, {q: 1}), ql, qh, rl, rh)
+        return R, rl, rh
 
     def split(self, f, lo, hi, k):
         """f = low + 2^k * high, 0 <= low < 2^k.  f must be >= 0.
@@ -206,10 +212,10 @@ class IntEnc:
         if s is None:
             hl, hh = lo >> k, hi >> k
             q = self.new_atom("h", 0, hh - hl, ("quot", f, k, hl))
-            low = f - Lin(0, {q: K}) - hl * K
-            self.cons.append("(<= 0 %s %d)" % (low.smt(), K - 1))
-            self.fb[low.key()] = (0, K - 1)
-            s = (low, Lin(hl, {q: 1}), hl, hh, 0, K - 1 if hh > hl else hi - hl * K)
+            rh_ = K - 1 if hh > hl else hi - hl * K
+            r = self.new_atom("r", 0, rh_, ("rem", f, k, q, hl))
+            self._add_eq(Lin(hl * K, {r: 1, q: K}) - f)
+            s = (Lin(0, {r: 1}), Lin(hl, {q: 1}), hl, hh, 0, rh_)
             self.splits[key] = s
         return s[0], s[4], s[5], s[1], s[2], s[3]
 
@@ -392,11 +398,11 @@ class IntEnc:
                 self.splits[(v.key(), iw)] = (d + K, Lin(1), 1, 1, 0, K - 1)
                 return v, dl + 2 * K, dh + 2 * K
             q = self.new_atom("b", 0, 1, ("borrow", d))
-            low = d + Lin(0, {q: K})
-            self.cons.append("(<= 0 %s %d)" % (low.smt(), K - 1))
-            self.fb[low.key()] = (0, K - 1)
-            v = d + Lin(0, {q: 2 * K})
-            self.splits[(v.key(), iw)] = (low, Lin(0, {q: 1}), 0, 1, 0, K - 1)
+            r = self.new_atom("r", 0, K - 1, ("sbbrem", d, K, q))
+            # r = d + 2^w * borrow ; value = r + 2^w * borrow
+            self._add_eq(Lin(0, {r: 1, q: -K}) - d)
+            v = Lin(0, {r: 1, q: K})
+            self.splits[(v.key(), iw)] = (Lin(0, {r: 1}), Lin(0, {q: 1}), 0, 1, 0, K - 1)
             return v, 0, 2 * K - 1
         if op == "mul":
             f0, l0, h0 = self.F(a[0])
@@ -580,9 +586,25 @@ class IntEnc:
         for t in texts:
             for a in self.atoms_in(t):
                 mx = max(mx, idx[a] + 1)
+        # a quotient atom is immediately followed by its remainder atom and
+        # their defining equation: keep them together
+        while mx < len(self.order):
+            d = self.defs.get(self.order[mx])
+            if d is not None and d[0] in ("rem", "sbbrem"):
+                mx += 1
+            else:
+                break
         return mx
 
+    def _sync_eqs(self):
+        n = getattr(self, "_eqs_emitted", 0)
+        for form, st in self.eqs[n:]:
+            list.append(self.cons, "(= 0 %s)" % form.smt())
+            self.cons.stamp.append(st)
+        self._eqs_emitted = len(self.eqs)
+
     def hop_slice(self, texts, extra, hops):
+        self._sync_eqs()
         """indices of constraints (and of `extra` items) within `hops` steps of
         the atoms mentioned in texts, walking the atom/constraint incidence
         graph.  Dropping the rest is a sound weakening of the assumptions."""
@@ -639,6 +661,8 @@ class IntEnc:
             for p, (x, y) in self.prod_ops.items():
                 if p in keep:
                     s.append("(assert (= %s (* %s %s)))" % (p, x, y))
+        # defining equations are ordinary constraints for emission purposes
+        self._sync_eqs()
         kc = kx = None
         if hops is not None:
             kc, kx = self.hop_slice([goal_negated], list(extra), hops)
@@ -658,6 +682,21 @@ class IntEnc:
                 s.append("(get-value (%s))" % " ".join(names))
         return "\n".join(s) + "\n"
 
+    def validate_on(self, atom_env, extra=()):
+        """all emitted constraints (and `extra`) hold on a real execution:
+        fix every atom to its concrete value and ask the solver.  Guards
+        against an inconsistent (vacuous) encoding."""
+        from .smt import run_solver
+        for e, st in self.eqs:
+            if e.eval(atom_env) != 0:
+                raise AssertionError("defining equation violated on a concrete run: %s" % e.smt()[:200])
+        fix = ["(= %s %s)" % (a, _n(atom_env[a])) for a in self.order]
+        script = self.script("true", extra=list(extra) + fix, logic=None, models=False)
+        v, _, dt = run_solver(script, "z3", 60)
+        if v != "sat":
+            raise AssertionError("constraint system rejects a concrete execution (%s)" % v)
+        return dt
+
     # -------------------------------------------------------- concrete check
     def eval_atoms(self, env_vars, term_env=None):
         """Compute the value of every atom for a concrete input (validates the
@@ -675,6 +714,11 @@ class IntEnc:
             if k == "quot":
                 _, f, w, ql = d
                 env[a] = (f.eval(env) >> w) - ql
+            elif k == "rem":
+                _, f, w, qa, ql = d
+                env[a] = f.eval(env) - ((env[qa] + ql) << w)
+            elif k == "sbbrem":
+                env[a] = d[1].eval(env) + d[2] * env[d[3]]
             elif k == "borrow":
                 env[a] = 1 if d[1].eval(env) < 0 else 0
             elif k == "prod":
